@@ -61,6 +61,39 @@ def printElem : Elem → String
 def shapeOf (leafIdx : List Nat) : Shape :=
   (sortDedup leafIdx).map fun i => (i, (leafIdx.zipIdx.filter (·.1 == i)).map (·.2))
 
+def printInter (tag : String) (v : List Inter) : String :=
+  s!"{tag} {v.length}" ++ String.join (v.map fun x => s!" {x.tgt}:{x.src}:{x.tpos}:{x.code}")
+
+def intsOf (ts : List String) : List Int := ts.map String.toInt!
+def joinInt (xs : List Int) : String := " ".intercalate (xs.map toString)
+
+def idxCommand (D : Nat) (periodic : Bool) : List String → List String
+  | "enc" :: cs => [s!"I enc {encode D 64 (natsOf cs)}"]
+  | ["dec", i] => [s!"I dec {joinNat (decode D 64 i.toNat!)}"]
+  | ["parent", i] => [s!"I parent {parent D i.toNat!}"]
+  | ["childcode", i] => [s!"I childcode {childCode D i.toNat!}"]
+  | ["child", p, c] => [s!"I child {child D p.toNat! c.toNat!}"]
+  | ["upper", l] => [s!"I upper {upperBound D l.toNat!}"]
+  | ["ilist", l, i] =>
+      let v := ilistCell D periodic l.toNat! i.toNat! 0
+      [s!"I ilist {v.length}" ++ String.join (v.map fun x => s!" {x.src}")]
+  | ["nlist", l, i, u] =>
+      let v := nlistCell D periodic l.toNat! i.toNat! 0 (u != "0")
+      [s!"I nlist {v.length}" ++ String.join (v.map fun x => s!" {x.src}")]
+  | "code7" :: cs => [s!"I code7 {code7 (intsOf cs)}"]
+  | ["dec7", c] => [s!"I dec7 {joinInt (decode7 D c.toNat!)}"]
+  | "code3" :: cs => [s!"I code3 {code3 (intsOf cs)}"]
+  | ["dec3", c] => [s!"I dec3 {joinInt (decode3 D c.toNat!)}"]
+  | "iblock" :: l :: ts :: cells =>
+      let (a, b) := ilistBlock D periodic l.toNat! (natsOf cells) (ts != "0")
+      [printInter "I iblock-in" a, printInter "I iblock-ex" b]
+  | "nblock" :: l :: u :: ts :: cells =>
+      let (a, b) := nlistBlock D periodic l.toNat! (natsOf cells) (u != "0") (ts != "0")
+      [printInter "I nblock-in" a, printInter "I nblock-ex" b]
+  | "sblock" :: cells => [printInter "I sblock" (selfListBlock D (natsOf cells))]
+  | ["consts"] => [s!"I consts {2^D} {6^D - 3^D} {3^D - 1}"]
+  | other => ["bad-op idx " ++ " ".intercalate other]
+
 def kv (ts : List String) (key : String) (dflt : Nat) : Nat :=
   match ts.find? (fun t => t.startsWith (key ++ "=")) with
   | some t => ((t.drop (key.length + 1)).toString).toNat!
@@ -79,6 +112,7 @@ def step (d : DState) (line : String) : DState × List String :=
     let idx := (List.range n).map fun i => encode d.D (d.H - 1) ((cs.drop (i * d.D)).take d.D)
     ({ d with leafIdx := idx }, [])
   | "mark" :: x => (d, ["M " ++ " ".intercalate x])
+  | "idx" :: rest => (d, idxCommand d.D d.periodic rest)
   | "build" :: ts =>
     if kv ts "auto" 0 == 1 then ({ d with skip := true }, []) else
     let t := Tree.build d.D d.H (kv ts "bs" 1) (kv ts "mode" 0 == 1) d.leafIdx
